@@ -27,7 +27,7 @@ void shim_set_abort_jmp(jmp_buf *j);
 
 #define MAXD 32
 #define MAXS 8
-#define MAXMSG 512
+#define MAXMSG 1024
 
 enum { S_FREE, S_CLAIMED, S_SENT, S_RECEIVED };
 
@@ -375,7 +375,15 @@ static void co_case(long long c)
 	co_per = 1 + (int)vh_below(&co_rng, depth >= 8 ? 40 : 12);
 	if (co_S * co_per > MAXMSG - 8)
 		co_per = (MAXMSG - 8) / co_S;
-	co_lag = (int)vh_below(&co_rng, (uint32_t)depth); /* 0..depth-1 messages held back */
+	if (vh_below(&co_rng, 16) == 0) {
+		/* a long run on a depth that is not a power of two: any 8-bit index or ticket wraps with messages in flight */
+		static const int odd[] = { 3, 5, 6, 7 };
+		depth = odd[vh_below(&co_rng, 4)];
+		co_S = 1 + (int)vh_below(&co_rng, 3);
+		co_per = (300 + (int)vh_below(&co_rng, 200)) / co_S;
+		VH_COUNT("long_runs_on_odd_depth");
+	}
+	co_lag = (int)vh_below(&co_rng, (uint32_t)depth + 1); /* 0..depth messages held back (depth: the receiver polls again while holding everything) */
 	int msg_len = 1 + (int)vh_below(&co_rng, 12);
 	int policy = vh_below(&co_rng, 3) == 0 ? SHIM_POLICY_PCT : SHIM_POLICY_RANDOM;
 	static const uint32_t probs[] = { 1311, 6554, 32768 }; /* 0.02, 0.1, 0.5 */
@@ -477,6 +485,8 @@ static const scenario_t scenarios[] = {
 	{ "full queue of claimed-but-unsent, then send", 2, "cc", "cs" },
 	{ "depth 32, claim+send+receive+release", 32, "cscscscs", "csrl" },
 	{ "drain: receive all of a full queue", 3, "cscscs", "rlrlrlr" },
+	{ "receive everything, poll again, only then release", 2, "cscs", "rrrllr" },
+	{ "receive everything of depth 1, poll again, release", 1, "cs", "rrlr" },
 	/* the receiver preempts a sender (higher-priority consumer): main context only claims and sends */
 	{ "receiver ISR inside claim on a full queue", 3, "cscscs", "c", 1 },
 	{ "receiver ISR inside claim+send, queue part full", 3, "cs", "cscs", 1 },
